@@ -458,3 +458,13 @@ def watchdog_integer_u64_multi_limb(c):
 def ubsan_shift_areal_wide_target(c):
     """areal whose fraction field is wider than the source's (fbits > 23 for float, > 52 for double) or whose blocks are as wide as the source word"""
     return _ub_in(c, 'areal_impl.hpp')
+
+
+@pred
+def cfloat_conv_source_is_double_subnormal(c):
+    """cfloat -> cfloat: the source value, held in a double on the way, is a subnormal double (source with 11 exponent bits, exponent field 0)"""
+    cf = cfg_ints(c)
+    n1, e1 = cf[0], cf[1]
+    a = ints(c['args'])[0]
+    m = a & ((1 << (n1 - 1)) - 1)
+    return e1 == 11 and m != 0 and (m >> (n1 - 1 - e1)) == 0
